@@ -35,10 +35,10 @@ def build(run):
     return True
 
 
-def _model(path, model_args):
+def _model(path, model_args, env=None):
     with open(path, "rb") as fh:
         p = subprocess.run([os.path.join(C.BIN, "composite_model")] + list(model_args), stdin=fh,
-                           stdout=subprocess.PIPE, stderr=subprocess.STDOUT, timeout=3000)
+                           stdout=subprocess.PIPE, stderr=subprocess.STDOUT, timeout=3000, env=env)
     return p.returncode, p.stdout.decode("utf-8", "replace")
 
 
@@ -97,6 +97,8 @@ def run_families(run, fams, model_args=()):
             n = len([l for l in open(cpath) if l.strip()])
             rc, path, sc, tr = harness(["-mode", "script", "-file", cpath])
         else:
+            if run.tier == "quick":
+                n = run.scaled(n)      # anchor drift (a mirrored function changed): escalated budget, DESIGN 3.3
             rc, path, sc, tr = harness(["-mode", "batch", "-family", fam, "-n", n, "-seed", seed])
         rcm, out = _model(path, model_args)
         os.unlink(path)
@@ -114,14 +116,35 @@ def run_families(run, fams, model_args=()):
     return results, cover, summary, scripts, traces
 
 
-def check_a(run, args, model_args=()):
+VM_A = []   # VMCASE lines of the last check_a (extraction re-validation)
+
+
+def check_a(run, args, model_args=(), vm_stride=0):
     rc, path, _, _ = harness(args)
-    rcm, out = _model(path, model_args)
+    rcm, out = _model(path, model_args, env=C.vm_env(run.seed, vm_stride) if vm_stride else None)
     os.unlink(path)
+    VM_A[:] = [l for l in out.splitlines() if l.startswith("VMCASE")]
     _, _, summary, mism = parse_model(out)
     if rc != 0 or rcm != 0 or "SUMMARY" not in out:
         run.violation("harness-failed:" + args[1], {"out": out[-1500:]}, "check A driver failed to run", True)
     return summary, mism
+
+
+def vm_membership(run, fix11=True):
+    """Extraction re-validation of check A (membership): the sampled pairs re-evaluated by Coq's VM.  The parameters
+    record and the entry lists are printed here (independently of ocaml/composite.ml: pool4 = four children named 0..3)."""
+    pool = C.coq_list(["mkSpec %d%%N NonBlocking OnSignal RWC" % i for i in range(4)])
+    P = "(mkParams %s false %s false true)" % (pool, C.coq_bool(fix11))
+
+    def cf(x):
+        return C.coq_list([] if x == "-" else ["(%d%%N, 0%%N)" % int(n) for n in x.split(",")])
+    terms, exp, labels = [], [], []
+    for l in C.vm_thin(VM_A, 300, run.seed):
+        t = l.split("\t")
+        terms.append("(membership_changed %s %s %s, same_name_set %s %s %s)" % (P, cf(t[2]), cf(t[3]), P, cf(t[2]), cf(t[3])))
+        exp.append(t[4])
+        labels.append("membership old=%s new=%s" % (t[2], t[3]))
+    return C.vm_crosscheck(run, "composite-membership", ["Composite", "CompositeMon"], terms, exp, labels)
 
 
 def op_sig(script):
